@@ -492,8 +492,8 @@ def run(ctx):
                    fence(ai, ["cross", "outside"], match="a*"), fence(ai, ["exit", "inside", "cross"], ["set", "del"], where=True)]
         return scene(name, frame, ["A", "B", "C", "D", "E", "H", "K", "N", "M", "S"], areas, fs)
 
-    simulate("shapesTile", shapes(F_TILE, "shapesTile"), IDS3, [0, 5, 20], [-1, 5, 20], [2, 1], ctx.pick(25, 40),
-             ctx.pick([(2000, 12), (50, 48)], [(2000, 40), (50, 160)]), rereg=ctx.pick(2, 8))
+    simulate("shapesTile", shapes(F_TILE, "shapesTile"), IDS3, [0, 5, 20], [-1, 5, 20], [2, 1], ctx.pick(20, 40),
+             ctx.pick([(2000, 8), (50, 32)], [(2000, 40), (50, 160)]), rereg=ctx.pick(2, 8))
 
     if not ctx.quick:
         simulate("shapesHash", shapes(F_HASH, "shapesHash"), IDS3, [0, 5, 20], [-1, 5, 20], [2, 1], 40, [(1, 100), (50, 100)], rereg=8)
